@@ -156,6 +156,8 @@ type Obligation struct {
 }
 
 type Enc struct {
+	roCells []roCell // local cells no callee can write (see cellWrittenOnlyHere)
+	csHit map[string]bool // callsite clauses that matched a call
 	w       *World
 	top     *ssa.Function
 	topCon  *Contract
@@ -495,7 +497,7 @@ func (e *Enc) typeFacts(x Term, t types.Type, alloc Term) []Term {
 			out = append(out, inRange(x, t))
 		}
 		if u.Info()&types.IsString != 0 {
-			out = append(out, T(SBool, "(>= (str_len %s) 0)", x.S))
+			out = append(out, T(SBool, "(and (>= (str_len %s) 0) (<= (str_len %s) 1099511627776))", x.S, x.S)) // no string longer than 2^40 bytes exists (same assumption as for slices)
 		}
 	case *types.Pointer, *types.Map, *types.Chan:
 		out = append(out, T(SBool, "(>= %s 0)", x.S))
@@ -724,6 +726,23 @@ func (e *Enc) havocAll(st *State) {
 	na := e.heapGet(st, "$alloc")
 	e.assume(tTrue, T(SBool, "(>= %s %s)", na.S, alloc.S))
 	e.baseAlloc[st.base] = na
+}
+
+// havocAllCall: havocAll for a call; local cells that only the calling function writes keep their value.
+func (e *Enc) havocAllCall(st *State) {
+	type kept struct {
+		c roCell
+		v Term
+	}
+	var ks []kept
+	for _, c := range e.roCells {
+		ks = append(ks, kept{c, e.def("rocell", sel(e.heapGet(st, c.key), c.ref, c.sort))})
+	}
+	e.havocAll(st)
+	for _, k := range ks {
+		nh := e.heapGet(st, k.c.key)
+		e.assume(tTrue, T(SBool, "(= (select %s %s) %s)", nh.S, k.c.ref.S, k.v.S))
+	}
 }
 
 func (e *Enc) allocRef(st *State, guard Term) Term {
